@@ -61,11 +61,11 @@ Example C20_dotdot_refused :
   http_process fs_w v_tree (cfg_w false) [Data req_dotdot] = ([Send [52; 48; 52]; Close], Done).
 Proof. vm_compute. reflexivity. Qed.
 
-(* refutation witnesses of the full safety statement on the unchanged tree *)
+(* refutation witnesses of the safety statement for the flow before the fix commits *)
 Lemma proxy_safe_refuted : exists fs cfg,
   display_fits cfg /\
-  snd (http_process fs v_tree cfg [Data req_connect]) = Crash NullDeref /\
-  snd (http_process fs v_tree cfg [Data req_get_noslash]) = Crash NullDeref.
+  snd (http_process fs v_prefix cfg [Data req_connect]) = Crash NullDeref /\
+  snd (http_process fs v_prefix cfg [Data req_get_noslash]) = Crash NullDeref.
 Proof.
   exists fs_w, (cfg_w true). split; [exact (display_fits_w true)|].
   split; [exact (f_equal snd proxy_refuted_connect) | exact (f_equal snd proxy_refuted_get)].
@@ -73,7 +73,7 @@ Qed.
 
 Lemma params_refuted : exists fs cfg,
   display_fits cfg /\ proxy cfg = false /\
-  snd (http_process fs v_tree cfg [Data req_empty_param]) = Crash UninitRead.
+  snd (http_process fs v_prefix cfg [Data req_empty_param]) = Crash UninitRead.
 Proof.
   exists fs_w, (cfg_w false). split; [exact (display_fits_w false)|]. split; [reflexivity|].
   exact (f_equal snd params_refuted_w).
@@ -85,3 +85,10 @@ Example C20_served_is_file_nonvacuous :
   http_process fs_plain v_tree (cfg_w false) [Data [71; 69; 84; 32; 47; 97; 10; 10]] =
   ([Open [47; 119; 47; 97] true; Send [50; 48; 48]; Send []; Send [13; 10]; Send [104; 105; 36]; Close], Done).
 Proof. vm_compute. reflexivity. Qed.
+
+(* the former crash requests on the current tree: 400 / close / empty PARAMS *)
+Example C20_proxy_safe_nonvacuous :
+  http_process fs_w v_tree (cfg_w true) [Data req_connect] = ([Send [52; 48; 48]; Close], Done) /\
+  http_process fs_w v_tree (cfg_w true) [Data req_get_noslash] = ([Close], Done) /\
+  snd (http_process fs_w v_tree (cfg_w false) [Data req_empty_param]) = Done.
+Proof. vm_compute. auto. Qed.
